@@ -69,7 +69,9 @@ _RESOLVABLE = {}
 
 
 def op_key(x):
-    """operator entry of a ParentOperator: a string, or an object / function written as a class-path dict.
+    """canonical key of a passed-through payload that may hold objects written as class-path dicts (operator entry
+    of a ParentOperator: a string, an enum member or a function; metadata holding enum members): an earlier name and
+    the current name of one class are one key.
     A class path that cannot be imported is dropped by the decoder (the entry is loaded as a plain dict):
     such tags are not part of the key"""
     def norm(t):
@@ -215,7 +217,7 @@ def export_hist(history, tok):
     for g in history.generations:
         if not hasattr(g, 'generation_num'):
             raise TypeViolation('generation is %s, not a Generation' % type(g).__name__)
-        gens.append({'num': g.generation_num, 'label': tok('label', g.label), 'meta': tok('gmeta', jkey(g.metadata)),
+        gens.append({'num': g.generation_num, 'label': tok('label', g.label), 'meta': tok('gmeta', op_key(g.metadata)),
                      'members': [index[id(i)] for i in g]})
     snaps = [[index[id(i)] for i in a] for a in history.archive_history]
     o = history.objective
@@ -241,7 +243,7 @@ def ind_record(o, tok, ref_of):
     if ng is not None and not (isinstance(ng, int) and ng >= 0):
         raise ShapeError('native_generation %r' % (ng,))
     return {'uid': tok('uid', str(o.uid)), 'fit': tok('fit', fit_key_mem(o.fitness)), 'graph': tok('graph', graph_key_mem(o.graph)),
-            'meta': tok('imeta', jkey(o.metadata)), 'ng': ng, 'op': op}
+            'meta': tok('imeta', op_key(o.metadata)), 'ng': ng, 'op': op}
 
 
 CUR = {
@@ -335,7 +337,7 @@ def parse_ehist(text, tok, legacy=False):
                 raise ShapeError('generation %r' % (list(g) if isinstance(g, dict) else g))
             if not all(isinstance(u, str) for u in g['data']):
                 raise ShapeError('generation members are not uid strings')
-            gens['gens'].append({'num': g['generation_num'], 'label': tok('label', g['label']), 'meta': tok('gmeta', jkey(g['metadata'])),
+            gens['gens'].append({'num': g['generation_num'], 'label': tok('label', g['label']), 'meta': tok('gmeta', op_key(g['metadata'])),
                                  'members': [tok('uid', u) for u in g['data']]})
     arch = []
     for a in t['archive_history']:
@@ -364,7 +366,7 @@ def parse_eind(i, tok, legacy=False):
     if ng is not None and not (isinstance(ng, int) and ng >= 0):
         raise ShapeError('native_generation %r' % (ng,))
     return {'uid': tok('uid', str(i['uid'])), 'fit': tok('fit', fit_key_json(i['fitness'])), 'graph': tok('graph', graph_key_json(i['graph'])),
-            'meta': tok('imeta', jkey(i['metadata'])), 'ng': ng, 'op': op}
+            'meta': tok('imeta', op_key(i['metadata'])), 'ng': ng, 'op': op}
 
 
 # ----------------------------------------------------------------------------------------
